@@ -1,0 +1,14 @@
+//go:build verif
+
+package square
+
+import "github.com/celestiaorg/go-square/v2/share"
+
+// Thin wrappers that expose unexported helpers to the verification harness in
+// /verif. They are only compiled with the build tag "verif".
+
+func VerifWorstCaseShareIndexes(blobs int) []uint32 { return worstCaseShareIndexes(blobs) }
+
+func VerifNewElement(blob *share.Blob, pfbIndex, blobIndex, subtreeRootThreshold int) *Element {
+	return newElement(blob, pfbIndex, blobIndex, subtreeRootThreshold)
+}
